@@ -38,6 +38,15 @@ claimed["C17"] = ("oracle monitor: rule validator + routing discrimination vs re
 claimed["C05"] = ("reference-model monitor: documented-interval table vs real Contains on boundary-concentrated probes (runtime monitoring)",
   "Exploration: for every documented (ecosystem, construct, arity) generated bases and boundary probes are evaluated by the real parser and Contains; expected membership comes from an interval table written from upstream documentation and the ecosystem's own Compare.",
   "Trusts the interval table (DESIGN.md Appendix A) and the unclaimed-zone definitions; Compare is the order.", "5/C05 + Appendix A")
+claimed["C06"] = ("crash / hang / cost monitors in child processes: exhaustive short strings, hostile mutations, size ladders under CPU budgets, CLI argv (runtime monitoring)",
+  "Exploration with an exhaustive core: all strings up to length k over a 27-symbol syntax alphabet through every entry point (exhaustive for that sub-space only), plus hostile mutations, size ladders with CPU-time budgets and the built binary on hostile argv; oracles are recover(), value-xor-error, (true,err) and the budget.",
+  "CPU time via getrusage, never wall-clock; a wall-clock watchdog firing alone is inconclusive.", "5/C06")
+claimed["C07"] = ("law monitor on sort outputs, in process and at the process boundary of the built binary (runtime monitoring)",
+  "Exploration: generated lists with duplicates and equal respellings are sorted in every permutation (all for <= 6 elements) by the documented idiom and by the real CLI; permutation, sortedness and class-sequence invariance are decided with the implementation's Compare; invalid elements are injected at every position.",
+  "Lists on which Compare is not a total preorder are skipped and left to C01.", "5/C07")
+claimed["C15"] = ("differential process monitor: built univers binary vs in-process library on generated argv (runtime monitoring)",
+  "Exploration: for generated argument vectors over all names and commands the binary's stdout and exit status are compared with the library result computed through the adapter registered under the same name; discriminating inputs make mis-wiring observable.",
+  "Trusts the harness's formatter for the documented output format; equal elements in sort output are compared modulo equivalence classes.", "5/C15")
 pending = {}
 props = [json.loads(l) for l in open(os.path.join(V, "properties.jsonl"))]
 checks, na = [], []
